@@ -6,8 +6,13 @@ from . import model
 from .core import Violation, guarded
 
 
-def _mode(fmt):
+def _mode(fmt, variant=0):
+    """the mode constant, or one of the documented aliases ('zinc', 'json', any case)"""
     import hszinc
+    if variant % 4 == 1:
+        return fmt
+    if variant % 4 == 2:
+        return fmt.upper()
     return hszinc.MODE_ZINC if fmt == 'zinc' else hszinc.MODE_JSON
 
 
@@ -18,15 +23,18 @@ def check_scalar(case, fmt):
     m = case['value']
     v = model.from_model(m)
     tags = (fmt, 'scalar', m[0])
-    txt = guarded('dump-raises', case, hszinc.dump_scalar, v, mode=_mode(fmt), version=hszinc.Version(ver))
+    var = len(repr(m))          # deterministic variation of equivalent API spellings
+    txt = guarded('dump-raises', case, hszinc.dump_scalar, v, mode=_mode(fmt, var), version=hszinc.Version(ver))
     if fmt == 'json':
         # the JSON scalar dumper returns the JSON value; transport it as text
         txt = guarded('json-encode', case, json.dumps, txt)
-        back = guarded('parse-raises', case, lambda: hszinc.parse_scalar(json.loads(txt), mode=_mode(fmt), version=ver))
+        back = guarded('parse-raises', case, lambda: hszinc.parse_scalar(
+            json.loads(txt), mode=_mode(fmt, var // 4), version=(ver if var % 2 else hszinc.Version(ver))))
     else:
         if not isinstance(txt, str):
             raise Violation('dump-type', case, 'dump_scalar returned %s' % type(txt).__name__, tags)
-        back = guarded('parse-raises', case, hszinc.parse_scalar, txt, mode=_mode(fmt), version=ver)
+        back = guarded('parse-raises', case, hszinc.parse_scalar, txt, mode=_mode(fmt, var // 4),
+                       version=(ver if var % 2 else hszinc.Version(ver)))
     d = model.diff(model.normalise(m), model.to_model(back), tol=(fmt == 'json'))
     if d:
         raise Violation('roundtrip-diff', case, '%s | text=%r' % (d, txt[:300]), tags + (d.split(':')[1].split()[0] if ':' in d else '',))
@@ -62,7 +70,12 @@ def check_doc(case, fmt):
     form = case.get('form', 'text')
     gs = [model.from_model(m) for m in ms]
     before = [model.to_model(g) for g in gs]
-    txt = guarded('dump-raises', case, hszinc.dump, gs[0] if single else gs, mode=_mode(fmt))
+    var = len(repr(ms))         # deterministic variation of equivalent API spellings
+    if single and var % 5 == 4:
+        from hszinc import dumper
+        txt = guarded('dump-raises', case, dumper.dump_grid, gs[0], mode=_mode(fmt, var))
+    else:
+        txt = guarded('dump-raises', case, hszinc.dump, gs[0] if single else gs, mode=_mode(fmt, var))
     if not isinstance(txt, str):
         raise Violation('dump-type', case, 'dump returned %s' % type(txt).__name__)
     for b, g in zip(before, gs):
@@ -86,7 +99,11 @@ def check_doc(case, fmt):
         inp = json.loads(txt)
         kw = {}
     keep = copy.deepcopy(inp) if form == 'obj' else None
-    back = guarded('parse-raises', case, hszinc.parse, inp, mode=_mode(fmt), single=single, **kw)
+    if single and form == 'text' and var % 7 == 6:
+        from hszinc import parser
+        back = guarded('parse-raises', case, parser.parse_grid, inp, mode=_mode(fmt, var // 5))
+    else:
+        back = guarded('parse-raises', case, hszinc.parse, inp, mode=_mode(fmt, var // 5), single=single, **kw)
     if form == 'obj' and keep != inp:
         raise Violation('parse-mutated-input', case, 'pre-decoded input object was modified')
     if single:
